@@ -63,6 +63,22 @@ pub const FRAGS: &[Frag] = &[
     f("clash_private", "    uint256 private shared$;\n    function setShared$(uint256 v) public {\n        shared$ = v;\n    }\n"),
     f("clash_constant", "    uint256 public constant shared$ = 1;\n"),
     f("clash_address", "    address internal shared$;\n    function whoShared$() public view returns (address) {\n        return shared$;\n    }\n"),
+    // constructs beyond plain functions and state variables
+    f("modifier_guard", "    modifier onlyPos$(uint256 a) {\n        require(a > 0, \"neg\");\n        _;\n    }\n    function mg$(uint256 a) public onlyPos$(a) {\n    }\n"),
+    f("event_emit", "    event Ev$(address indexed who, uint256 amount);\n    function ee$(uint256 a) public {\n        emit Ev$(msg.sender, a + 1);\n    }\n"),
+    f("struct_mapping", "    struct Acct$ {\n        uint64 a;\n        uint256 b;\n        uint64 c;\n    }\n    mapping(address => Acct$) accts$;\n    function sg$(address who) public view returns (uint256) {\n        return accts$[who].b;\n    }\n"),
+    f("unchecked_block", "    function ub$(uint256 a) public pure returns (uint256) {\n        unchecked {\n            a++;\n            return a * 4;\n        }\n    }\n"),
+    f("custom_error", "    error Bad$(uint256 a);\n    function ce$(uint256 a) public pure {\n        if (a == 0) {\n            revert Bad$(a);\n        }\n    }\n"),
+    f("while_loop", "    function wl$(uint256 n) public pure returns (uint256 s) {\n        uint256 i = 0;\n        while (i < n) {\n            s += i;\n            ++i;\n        }\n    }\n"),
+    f("ternary", "    function tn$(uint256 a, uint256 b) public pure returns (uint256) {\n        return a > b ? a - b : b - a;\n    }\n"),
+    f("try_catch", "    function tc$(address t) public returns (bool) {\n        try IERC20(t).transfer(msg.sender, 1) returns (bool ok) {\n            return ok;\n        } catch {\n            return false;\n        }\n    }\n"),
+    f("assembly_block", "    function asm$(uint256 a) public pure returns (uint256 r) {\n        assembly {\n            r := add(a, 1)\n        }\n    }\n"),
+    f("enum_decl", "    enum Mode$ { Off, On }\n    Mode$ mode$;\n    function em$() public {\n        mode$ = Mode$.On;\n    }\n"),
+    f("nested_calls", "    function nc$(uint256 a, uint256 b) public pure returns (bytes32) {\n        return keccak256(abi.encodePacked(a + b, keccak256(abi.encodePacked(b * 2))));\n    }\n"),
+    f("immutable_decl", "    uint256 immutable im$ = 7;\n    uint256 constant CN$ = 9;\n"),
+    f("compound_assign", "    uint256 total$;\n    function dc$(uint256 a) public {\n        total$ += a;\n        total$ -= 1;\n        delete total$;\n    }\n"),
+    f("array_ops", "    address[] list$;\n    function ao$(address a) public {\n        list$.push(a);\n        for (uint256 i; i < list$.length; ++i) {\n            if (list$[i] == address(0)) {\n                list$[i] = a;\n            }\n        }\n    }\n"),
+    f("payable_receive", "    function dep$() external payable {\n        require(msg.value > 0 && msg.sender != address(0), \"no value\");\n    }\n"),
     f("multiline_call", "    function mk$(address t, address to, uint256 a) public {\n        IERC20(t)\n            .transfer(\n                to,\n                a * 4\n            );\n    }\n"),
 ];
 
@@ -96,7 +112,25 @@ pub struct TextSpec {
     /// the contracts of the file reuse the same names (state variables, functions): every
     /// fragment gets the same suffix in every contract
     pub clash: bool,
+    /// per contract: 0 contract, 1 abstract contract, 2 library, 3 contract inheriting the previous
+    pub kinds: Vec<u8>,
+    /// file-level items after the pragma: indices into EXTRAS
+    pub extras: Vec<u8>,
 }
+
+/// File-level items other than contracts.
+pub const EXTRAS: &[&str] = &[
+    "import \"./Other.sol\";\n",
+    "import {A, B} from \"../lib/AB.sol\";\n",
+    "interface IERC20 {\n    function transfer(address to, uint256 amount) external returns (bool);\n}\n",
+    "struct Point {\n    uint128 x;\n    uint256 y;\n    uint128 z;\n}\n",
+    "error Unauthorized(address who);\n",
+    "uint256 constant FILE_LEVEL = 3;\n",
+    "pragma abicoder v2;\n",
+    "/* block comment\n   address(0) i++ a == true\n*/\n",
+    "library SafeMath {\n    function add(uint256 a, uint256 b) internal pure returns (uint256) {\n        return a + b;\n    }\n}\n",
+    "enum Side { Buy, Sell }\n",
+];
 
 pub fn render(spec: &TextSpec) -> String {
     let mut s = String::new();
@@ -108,13 +142,21 @@ pub fn render(spec: &TextSpec) -> String {
         s.push_str("// \u{8a2d}\u{8a08}\u{66f8} \u{2014} na\u{ef}ve \u{1f600}\n");
     }
     s.push_str(&format!("pragma solidity {};\n", PRAGMAS[spec.pragma % PRAGMAS.len()]));
+    for e in &spec.extras {
+        s.push_str(EXTRAS[*e as usize % EXTRAS.len()]);
+    }
     let mut uniq = 0usize;
     for (ci, frags) in spec.contracts.iter().enumerate() {
         let blanks = spec.blank_lines.get(ci).copied().unwrap_or(1) as usize;
         for _ in 0..blanks {
             s.push('\n');
         }
-        s.push_str(&format!("contract C{} {{\n", ci));
+        match spec.kinds.get(ci).copied().unwrap_or(0) {
+            1 => s.push_str(&format!("abstract contract C{} {{\n", ci)),
+            2 => s.push_str(&format!("library C{} {{\n", ci)),
+            3 if ci > 0 => s.push_str(&format!("contract C{} is C{} {{\n", ci, ci - 1)),
+            _ => s.push_str(&format!("contract C{} {{\n", ci)),
+        }
         let mut have_ctor = false;
         let mut have_using = false;
         let mut seen_keys: Vec<&str> = vec![];
@@ -152,6 +194,17 @@ pub fn render(spec: &TextSpec) -> String {
     s
 }
 
+fn gen_kinds(rng: &mut Rng, n: usize) -> Vec<u8> {
+    (0..n).map(|_| if rng.chance(1, 3) { rng.range(1, 3) as u8 } else { 0 }).collect()
+}
+
+fn gen_extras(rng: &mut Rng) -> Vec<u8> {
+    if rng.chance(2, 3) {
+        return vec![];
+    }
+    (0..rng.range(1, 3)).map(|_| rng.below(EXTRAS.len()) as u8).collect()
+}
+
 fn clash_family() -> Vec<usize> {
     (0..FRAGS.len()).filter(|&i| FRAGS[i].key.starts_with("clash_")).collect()
 }
@@ -186,6 +239,8 @@ pub fn gen_clash_spec(rng: &mut Rng) -> TextSpec {
         spdx: rng.chance(1, 3),
         blank_lines: (0..n_contracts).map(|_| rng.below(3) as u8).collect(),
         clash: true,
+        kinds: gen_kinds(rng, n_contracts),
+        extras: gen_extras(rng),
     }
 }
 
@@ -268,6 +323,8 @@ pub fn gen_spec(rng: &mut Rng) -> TextSpec {
         spdx: rng.chance(1, 3),
         blank_lines: (0..n_contracts).map(|_| rng.below(3) as u8).collect(),
         clash: false,
+        kinds: gen_kinds(rng, n_contracts),
+        extras: gen_extras(rng),
     }
 }
 
@@ -295,6 +352,8 @@ pub fn stuffed_text(pragma: usize) -> String {
         spdx: false,
         blank_lines: vec![1; n],
         clash: false,
+        kinds: vec![],
+        extras: vec![],
     })
 }
 
